@@ -1,18 +1,17 @@
-SPECIFICATION Spec
+SPECIFICATION SpecSim
 CONSTANTS
   Nodes = {1, 2, 3, 4}
-  InitPower <- P111x
+  InitPower <- P1120
   Accounts = {"a", "b"}
-  Bodies <- BodiesM
+  Bodies <- BodiesS
   SigLists <- ListsM
   Replicas = {1, 2}
-  MaxTx = 4
+  MaxTx = 5
   MaxBlocks = 3
   DedupSigners = TRUE
   DirectOpen = FALSE
   QueryOpen = FALSE
   TallyOnly = FALSE
-VIEW view
 CONSTRAINT Viable
 INVARIANTS TypeOK CountedOnce UniformApplication
 PROPERTIES ChangeOnlyIfAuthorised ChangeAtEndBlockOnly ReplayChangesNothing NoSideChannel
